@@ -486,3 +486,194 @@ Qed.
 
 End OneSubset.
 End Comp.
+
+(* ================================================================== C/D. the weight of "the component is C" *)
+Lemma filter_partition_length {A} (p : A -> bool) l :
+  (length (filter p l) + length (filter (fun a => negb (p a)) l) = length l)%nat.
+Proof. induction l as [|a l IH]; [reflexivity|]. cbn [filter]. destruct (p a); cbn; lia. Qed.
+
+Lemma subl_NoDup {A} (s l : list A) : subl s l -> NoDup l -> NoDup s.
+Proof.
+  induction 1 as [|x s l Hs IH|x s l Hs IH]; intros Hnd; [constructor| |]; inversion Hnd; subst.
+  - constructor; [|apply IH; assumption]. intros Hin. apply (subl_incl _ _ Hs) in Hin. contradiction.
+  - apply IH; assumption.
+Qed.
+
+Section CompSum.
+Variable phi : Q.
+Let q := 1 - phi.
+Variable tau : nat.
+Hypothesis Htau : (1 <= tau)%nat.
+Variable C : list nat.
+Hypothesis HC : subl C (seq 1 (tau - 1)).
+
+Let E := all_edges tau.
+Let K := length (Cr C).
+Let Ein := filter (ein C) E.
+Let Er := filter (fun e => negb (ein C e)) E.
+
+Lemma ebd_rest (T : list edge) : filter (ebd C) (filter (fun e => negb (ein C e)) T) = filter (ebd C) T.
+Proof.
+  induction T as [|e T IH]; [reflexivity|]. cbn [filter].
+  destruct (ein C e) eqn:Ee; cbn [negb filter].
+  - rewrite IH. unfold ein in Ee. apply andb_true_iff in Ee. destruct Ee as [E1 E2].
+    unfold ebd. rewrite E1, E2. reflexivity.
+  - rewrite IH. reflexivity.
+Qed.
+
+Lemma Cr_subl : subl (Cr C) (seq 0 tau).
+Proof.
+  replace tau with (S (tau - 1)) by lia. cbn [seq]. apply subl_cons. exact HC.
+Qed.
+
+Lemma Cr_NoDup : NoDup (Cr C).
+Proof. apply (subl_NoDup _ _ Cr_subl), seq_NoDup. Qed.
+
+Definition rho (i : nat) : nat := nth i (Cr C) 0%nat.
+
+Lemma Cr_rho : map rho (seq 0 K) = Cr C.
+Proof. apply map_nth_seq. Qed.
+
+Lemma rho_inj i j : (i < K)%nat -> (j < K)%nat -> rho i = rho j -> i = j.
+Proof. intros Hi Hj. apply (proj1 (NoDup_nth (Cr C) 0%nat) Cr_NoDup); assumption. Qed.
+
+Lemma Ein_relabel : Ein = map (emap rho) (all_edges K).
+Proof.
+  unfold Ein, E, ein. rewrite all_edges_pairs, (pairs_filter (inC C)).
+  unfold inC. rewrite (subl_filter_mem (seq 0 tau) (Cr C) (seq_NoDup _ _) Cr_subl).
+  rewrite <- Cr_rho at 1. rewrite pairs_map, <- all_edges_pairs. reflexivity.
+Qed.
+
+Lemma count_in e :
+  Z.of_nat (length (filter (fun T => connectedb (Cr C) T) (combs e Ein))) = brute K e.
+Proof.
+  pose proof (brute_relabel rho K rho_inj e) as H. rewrite Cr_rho, <- Ein_relabel in H. exact H.
+Qed.
+
+Lemma Ein_length : length Ein = length (all_edges K).
+Proof. rewrite Ein_relabel, map_length. reflexivity. Qed.
+
+(* the sum over the edge subsets inside C' that connect C' *)
+Lemma inside_sum :
+  qsum (map (fun S1 => W phi (length Ein) (length S1) * bq (connectedb (Cr C) S1)) (subseqs Ein)) ==
+  qsum (map (fun e => inject_Z (brute K e) * W phi (length (all_edges K)) e) (seq 0 (S (length (all_edges K))))).
+Proof.
+  rewrite subseqs_by_size, Ein_length. apply qsum_map_ext. intros e _.
+  rewrite <- count_in, <- qsum_count, <- qsum_scale_r. apply qsum_map_ext. intros S1 HS1.
+  apply combs_spec in HS1. rewrite (proj2 HS1). ring.
+Qed.
+
+(* THE WEIGHT OF "comp = C": connected inside, no boundary edge kept, the rest free *)
+Lemma comp_weight :
+  qsum (map (fun T => W phi (length E) (length T) * bq (leqb C (comp tau T))) (subseqs E)) ==
+  qsum (map (fun e => inject_Z (brute K e) * W phi (length (all_edges K)) e) (seq 0 (S (length (all_edges K)))))
+  * qpn q (length (filter (ebd C) E)).
+Proof.
+  set (F := fun S1 S2 : list edge =>
+              W phi (length Ein) (length S1) * bq (connectedb (Cr C) S1)
+              * (W phi (length Er) (length S2) * bq (nilb (filter (ebd C) S2)))).
+  rewrite (qsum_map_ext _ (fun T => F (filter (ein C) T) (filter (fun e => negb (ein C e)) T))).
+  - rewrite split2. fold Ein. fold Er. unfold F.
+    rewrite (qsum_map_ext _ (fun S1 => W phi (length Ein) (length S1) * bq (connectedb (Cr C) S1)
+                                        * qpn q (length (filter (ebd C) E)))).
+    + rewrite qsum_scale_r, inside_sum. reflexivity.
+    + intros S1 _. rewrite qsum_scale, (none_kept phi (ebd C) Er). unfold Er. rewrite ebd_rest. reflexivity.
+  - intros T HT. apply subseqs_spec in HT.
+    assert (HTin : edges_in (seq 0 tau) T).
+    { eapply edges_in_incl; [apply subl_incl, HT | apply all_edges_in]. }
+    rewrite (comp_indicator tau Htau C HC T HTin). unfold F. rewrite ebd_rest.
+    assert (HlE : length E = (length Ein + length Er)%nat).
+    { unfold Ein, Er. rewrite filter_partition_length. reflexivity. }
+    assert (HlT : length T = (length (filter (ein C) T) + length (filter (fun e => negb (ein C e)) T))%nat).
+    { rewrite filter_partition_length. reflexivity. }
+    rewrite HlE, HlT at 1. rewrite W_split.
+    + destruct (nilb (filter (ebd C) T)), (connectedb (Cr C) (filter (ein C) T)); unfold bq; cbn [andb]; ring.
+    + apply subl_length. unfold Ein. clear -HT. induction HT; cbn [filter]; [constructor| |].
+      * destruct (ein C x); [apply subl_cons|]; assumption.
+      * destruct (ein C x); [apply subl_skip|]; assumption.
+    + apply subl_length. unfold Er. clear -HT. induction HT; cbn [filter]; [constructor| |].
+      * destruct (ein C x); cbn [negb]; [|apply subl_cons]; assumption.
+      * destruct (ein C x); cbn [negb]; [|apply subl_skip]; assumption.
+Qed.
+
+End CompSum.
+
+(* ================================================================== E. counting the boundary edges; omega *)
+Lemma all_edges_len2 n : (2 * length (all_edges n) + n = n * n)%nat.
+Proof. rewrite all_edges_pairs. pose proof (pairs_length (seq 0 n)) as H. rewrite seq_length in H. exact H. Qed.
+
+Section Boundary.
+Variable tau : nat.
+Hypothesis Htau : (1 <= tau)%nat.
+Variable C : list nat.
+Hypothesis HC : subl C (seq 1 (tau - 1)).
+
+Definition eout (e : edge) : bool := negb (inC C (fst e)) && negb (inC C (snd e)).
+
+Lemma three_way (l : list edge) :
+  (length (filter (ein C) l) + length (filter (ebd C) l) + length (filter eout l) = length l)%nat.
+Proof.
+  induction l as [|e l IH]; [reflexivity|]. cbn [filter]. unfold ein, ebd, eout in *.
+  destruct (inC C (fst e)), (inC C (snd e)); cbn [andb xorb negb length]; lia.
+Qed.
+
+Lemma filter_inC_length : length (filter (inC C) (seq 0 tau)) = S (length C).
+Proof.
+  unfold inC. rewrite (subl_filter_mem (seq 0 tau) (Cr C) (seq_NoDup _ _) (Cr_subl tau Htau C HC)). reflexivity.
+Qed.
+
+Lemma boundary_count :
+  length (filter (ebd C) (all_edges tau)) = (S (length C) * (tau - S (length C)))%nat.
+Proof.
+  pose proof (three_way (all_edges tau)) as H3.
+  assert (Hin : length (filter (ein C) (all_edges tau)) = length (pairs (filter (inC C) (seq 0 tau)))).
+  { unfold ein. rewrite all_edges_pairs, (pairs_filter (inC C)). reflexivity. }
+  assert (Hout : length (filter eout (all_edges tau)) =
+                 length (pairs (filter (fun v => negb (inC C v)) (seq 0 tau)))).
+  { unfold eout. rewrite all_edges_pairs, (pairs_filter (fun v => negb (inC C v))). reflexivity. }
+  pose proof (pairs_length (filter (inC C) (seq 0 tau))) as P1.
+  pose proof (pairs_length (filter (fun v => negb (inC C v)) (seq 0 tau))) as P2.
+  pose proof (all_edges_len2 tau) as P3.
+  pose proof (filter_partition_length (inC C) (seq 0 tau)) as P4. rewrite seq_length in P4.
+  rewrite filter_inC_length in *.
+  rewrite Hin, Hout in H3.
+  set (a := length (pairs (filter (inC C) (seq 0 tau)))) in *.
+  set (b := length (pairs (filter (fun v => negb (inC C v)) (seq 0 tau)))) in *.
+  set (d := length (filter (fun v => negb (inC C v)) (seq 0 tau))) in *.
+  set (x := length (filter (ebd C) (all_edges tau))) in *.
+  set (k := S (length C)) in *. set (t := length (all_edges tau)) in *.
+  assert (Hd : (tau - k = d)%nat) by lia. rewrite Hd.
+  assert (Ht : tau = (k + d)%nat) by lia.
+  clearbody a b d x k t. clear Hin Hout Hd. revert H3 P1 P2 P3 P4 Ht. generalize tau. intros; subst. nia.
+Qed.
+
+End Boundary.
+
+Lemma tri_double n : (2 * tri (Z.of_nat n) = Z.of_nat n * (Z.of_nat n - 1))%Z.
+Proof. rewrite <- all_edges_length. pose proof (all_edges_len2 n). nia. Qed.
+
+Lemma zsum_desc (t : Z) r :
+  (2 * zsum (map (fun v => t - v) (zrange 1 (Z.of_nat r + 1))) = 2 * Z.of_nat r * t - Z.of_nat r * (Z.of_nat r + 1))%Z.
+Proof.
+  replace (Z.of_nat r + 1)%Z with (1 + Z.of_nat r)%Z by lia. rewrite zrange_seq, map_map.
+  induction r as [|r IH]; [reflexivity|].
+  rewrite seq_S, map_app. unfold zsum in *. rewrite fold_right_app. cbn [map fold_right Nat.add].
+  assert (Hf : forall l c, fold_right Z.add c l = (fold_right Z.add 0 l + c)%Z).
+  { induction l as [|a l IHl]; intros c; cbn [fold_right]; [lia|]. rewrite IHl. lia. }
+  rewrite Hf. lia.
+Qed.
+
+(* GENERAL: omega(tau, kappa) is the number of edges between a (kappa+1)-subset of a tau-clique and the rest *)
+Lemma omega_closed tau kappa : (kappa < tau)%nat ->
+  omega tau kappa = Z.of_nat (S kappa * (tau - S kappa)).
+Proof.
+  intros H. unfold omega. cbv zeta.
+  set (r := (tau - kappa - 1)%nat).
+  pose proof (zsum_desc (Z.of_nat tau) r) as Hs.
+  pose proof (tri_double r) as Ht. unfold tri in Ht.
+  set (s := zsum (map (fun v => (Z.of_nat tau - v)%Z) (zrange 1 (Z.of_nat r + 1)))) in *.
+  set (d := (Z.of_nat r * (Z.of_nat r - 1) / 2)%Z) in *.
+  replace (tau - S kappa)%nat with r by lia.
+  assert (Z.of_nat tau = Z.of_nat r + Z.of_nat (S kappa))%Z by lia.
+  rewrite Nat2Z.inj_mul. clearbody s d. nia.
+Qed.
